@@ -7,5 +7,6 @@ THEOREMS = {
     'C01': TABLES + ['BB.Props.C01.enc32_sound', 'BB.Props.C01.encode32_sound', 'BB.Props.C01.enc32_inj'],
     'C02': TABLES + [],
     'C06': TABLES + [],
-    'C07': [],
+    'C07': ['BB.Props.C07.' + n for n in ('hi_range', 'lo_range', 'hi_lo_sum', 'hi_lo_sum_exact', 'utype_accepts_hi',
+                                          'itype_accepts_lo', 'stype_accepts_lo', 'pair_rebuilds')],
 }
